@@ -16,7 +16,7 @@
 From Coq Require Import List Arith Bool Lia NArith ZArith.
 From LMBase Require Import Res ListX IEEE.
 From LMScan Require Import ScanModel ScanLemmas ScanProofs MaxProofs ScanCheck CheckProofs ScanConcrete F32Order
-     ConcreteProofs DiscLink DiscBridge ScanSwitch TotalProofs ScanWord WordProofs SatProofs GenScan WordSource ScanCheck2 Check2Proofs C03.
+     ConcreteProofs DiscLink DiscBridge ScanSwitch TotalProofs ScanWord WordProofs SatProofs GenScan WordSource ShapeConcrete ScanCheck2 Check2Proofs C03 C03Source.
 Import ListNotations.
 
 (* ---------- (A) totality ---------- *)
@@ -155,6 +155,37 @@ Proof.
   destruct (wc_input_sound K pssm (ce_dm v) Hwc) as (Hfin & Hw).
   apply (C03_concrete_max_block_independent K C pssm sq wrap v thr Hwf Henv).
   intros i _. exact (env_main_clause K C pssm sq wrap v Hwf Henv Hfin Hw i).
+Qed.
+
+(* (review finding C03-4) C03Source.v's statement for the scanner parameterised by the skeleton read
+   from scan.rs drops the tie-break conjunct; here it is at the full strength of
+   C03_concrete_max_wc_checked: on a fresh scanner the largest index among the maxima *)
+Theorem C03_source_concrete_max_wc_checked_full :
+  forall (K C : nat) (pssm : list (list F32.t)) (sq : list nat) (wrap : nat) (v : cenv)
+         (am : arm) (thr : F32.t) (B : nat),
+    wf_input K C pssm sq wrap ->
+    c_env K C pssm sq wrap = Ok v ->
+    1 <= B ->
+    wc_input K pssm (d_factor (ce_dm v)) = true ->
+    forall k : nat,
+    exists (Y : list (nat * F32.t)) (r : option (nat * F32.t)),
+      ce_ptake_max v am thr B k = Ok (Y, Ok r) /\
+      match r with
+      | None =>
+          forall i, i + length pssm <= length sq -> F32.ge (score_def K sq pssm i) thr = true ->
+                    In i (map fst Y)
+      | Some (p, x) =>
+          (p + length pssm <= length sq /\ F32.ge (score_def K sq pssm p) thr = true /\ ~ In p (map fst Y)) /\
+          x = score_def K sq pssm p /\
+          (forall i, i + length pssm <= length sq -> ~ In i (map fst Y) ->
+                     F32.is_nan (score_def K sq pssm i) = false -> F32.ge x (score_def K sq pssm i) = true) /\
+          (k = 0 -> forall i, i + length pssm <= length sq ->
+                     F32.eq (score_def K sq pssm i) x = true -> i <= p)
+      end.
+Proof.
+  intros K C pssm sq wrap v am thr B Hwf Henv HB Hwc k.
+  rewrite C03_source_concrete_eq.
+  exact (C03_concrete_max_wc_checked K C pssm sq wrap v am thr B Hwf Henv HB Hwc k).
 Qed.
 
 (* ---------- (C) usize arithmetic, setters before max() ---------- *)
